@@ -80,3 +80,22 @@ Example C05_burst_of_two :
   | None => (99%nat, [])
   end = (1%nat, [(1%N, 7); (2%N, 7)]).
 Proof. vm_compute. reflexivity. Qed.
+
+(* ---- tie to the source: the function bodies below are re-translated from /repo on every run
+   (harness/cmd/gofunc -> theories/Generated/Funcs.v, interpreted by theories/GoIR.v) ---- *)
+From Coq Require Import String.
+From Cache Require Import GoIR TieFailover.
+From Cache.Generated Require Import Funcs.
+Open Scope string_scope.
+Open Scope Z_scope.
+
+(* recentlyFailed consults the failure cache iff FailedUpdateTTL > -1 and reports a hit as the error (step
+   PFailCache); doBuild caches a build failure iff FailedUpdateTTL > -1, under a context with a TTL cell of its own
+   holding 0, i.e. for the failure cache's own TimeToLive = FailedUpdateTTL (step PErrWrite) *)
+Theorem C05_source_failure_cache : forall failed_ttl hit x built_ok write_ok errwrite_ok,
+  (run_recently_failed fn_Failover_recentlyFailed failed_ttl hit = Some ((0 <=? failed_ttl) && hit, 0 <=? failed_ttl) /\
+   run_recently_failed fn_FailoverOf_recentlyFailed failed_ttl hit = Some ((0 <=? failed_ttl) && hit, 0 <=? failed_ttl)) /\
+  (run_do_build fn_Failover_doBuild x built_ok write_ok errwrite_ok = Some (do_build_spec x built_ok write_ok errwrite_ok) /\
+   run_do_build fn_FailoverOf_doBuild x built_ok write_ok errwrite_ok = Some (do_build_spec x built_ok write_ok errwrite_ok)).
+Proof. intros; split; [exact (tie_recently_failed _ _)|exact (tie_do_build _ _ _ _)]. Qed.
+Print Assumptions C05_source_failure_cache.
